@@ -10,6 +10,7 @@ import (
 	"runtime"
 	"runtime/debug"
 	"sort"
+	"strconv"
 	"strings"
 	"time"
 
@@ -84,14 +85,15 @@ type Job struct {
 }
 
 type Result struct {
-	Job        Job
-	Stats      Stats
-	Violations []Violation
-	Witnesses  []Witness
-	Undecided  []string
-	Wall       time.Duration
-	Exhausted  bool // the whole tree was explored
-	SolverErrs int
+	Job                        Job
+	Stats                      Stats
+	Violations                 []Violation
+	Witnesses                  []Witness
+	Undecided                  []string
+	Wall                       time.Duration
+	Exhausted                  bool // the whole tree was explored
+	SolverErrs                 int
+	XChecked, XAgree, XUnknown int // cross-solver validation (GOSYM_XCHECK)
 }
 
 var defaultInitAllow = map[string]bool{
@@ -231,6 +233,10 @@ func (p *Program) Run(job Job) (res *Result) {
 		solver.OneShotMin = 600
 	}
 	solver.TmpDir = os.Getenv("GOSYM_TMP")
+	if n, _ := strconv.Atoi(os.Getenv("GOSYM_XCHECK")); n > 0 {
+		solver.XEvery = n
+		solver.XSolvers = [][]string{{"z3-new", "-T:30"}, {"cvc5", "--tlimit=30000"}}
+	}
 	if job.SolverLog != "" {
 		f, _ := os.Create(job.SolverLog)
 		defer f.Close()
@@ -303,6 +309,10 @@ func (p *Program) Run(job Job) (res *Result) {
 	ex.stats.SolverTime = solver.Time
 	ex.stats.Unknowns = solver.Unknowns
 	res.SolverErrs = solver.Errors
+	res.XChecked, res.XAgree, res.XUnknown = solver.XChecked, solver.XAgree, solver.XUnknown
+	for _, d := range solver.XDisagree {
+		ex.undecided = append(ex.undecided, "cross-solver disagreement: "+d)
+	}
 	if solver.Errors > 0 {
 		ex.undecided = append(ex.undecided, "solver error: "+solver.SawErr)
 	}
